@@ -8,7 +8,7 @@ PROP = {
             "{absent, -1..8} x reversed x {for with else, tablerow without cols, tablerow cols 0..4} x {no break, break at j, "
             "continue at j, break below if+case at j for every j <= length, break/continue on forloop.first, continue on "
             "forloop.last}; the body prints item|index|index0|rindex|rindex0|length|first|last; and the loop variable and forloop "
-            "are printed after the loop; (2) the same with offset and limit given as variables (length <= 4); (3) ranges (a..b) "
+            "are printed after the loop; (2) offset and limit given as variables: length 0..4 x offset x limit x reversed x {for with else, tablerow cols 2}, no break/continue; (3) ranges (a..b) "
             "for all endpoint pairs in -3..6, literal and variable endpoints, x 5 modifier sets x {for, tablerow cols 2}; "
             "(4) 24 collection kinds ([]any, []int, [3]string, []string, empty, range, descending range, string-keyed maps, "
             "int-keyed map, MapSlice, IterationKeyedMap, nil, int, string, bool, float, drop of array, drop of nil, nil pointer, "
@@ -28,26 +28,22 @@ PROP = {
 }
 
 TEXT = {
-    "text": ('Theorems: ranges (none when b < a, else a..b in order), arrays/maps/nil item lists, selection = reverse, then skip '
+    "text": ('Theorems: the items of a range (rangeItems: none when b < a, else a..b in order; a loop visits them when b - a <= 100000, beyond that the model answers `unmodelled` for every range loop), arrays/maps/nil item lists, selection = reverse, then skip '
               'offset, then take limit (select_spec), else clause exactly when nothing is selected, '
               'forloop.index/index0/rindex/rindex0/length/first/last by formula for every iteration, break/continue consumed by '
-              'the innermost loop (iterate_consumes, iterate_break, iterate_next), cycle counters per loop execution and group '
+              'the innermost loop (iterate_consumes for for and tablerow; iterate_break, iterate_next for `for`), cycle counters per loop execution and group '
               '(cycleGet_set_same, cycleGet_fresh), tablerow row/cell decoration (tablerow_before/after). Whole-construct '
-              'denotation (loop_denotation, for_denotation, tablerow_denotation): once the collection and the modifiers '
+              'denotation (loop_denotation, for_denotation, tablerow_denotation; for a loop with at most one else clause): once the collection and the modifiers '
               'evaluate, the bytes written on a fault-free writer and the final state of a for/tablerow node equal the left fold '
               '(List.foldl of iterStep) over the selected items of the body run with the loop variable and forloop bound by the '
               'formulas (tablerow: between its cell decorations), cut at the first break, going on after continue, failures '
               'located at the loop tag, with forloop and the loop variable restored at the end; nothing selected and an else '
-              'clause: that clause. From source bytes (Proofs.C11Source): for integers a <= b (int64, b - a <= 100000: larger ranges are '
-              'outside the model) and an identifier i other than forloop, the source {% for i in (a..b) %}{{ i }}{% endfor %} - any good '
-              'delimiters, a and b in decimal, every value layer, the standard output layer (any that prints an int as its decimal text) - makes run return exactly the decimal numerals of a, a+1, ..., b concatenated '
-              '(for_range_numerals_source, the arguments parsed by the scanner and grammar model: parse_rangeArgs); with reversed and '
-              'literal offset:/limit: arguments, for all integers, the numerals of selectItems reversed off lim [a..b] (for_range_mods_source, parse_rangeArgs_mods; for_range_source for any argument text that parses so; a loop variable named forloop is shadowed by the forloop record, for_var_named_forloop). Tie: the `loops` stream '
+              'clause: that clause. From source bytes (Proofs.C11Source; clean item lists, any good delimiters, every value layer, any output layer that prints an int as its decimal text - the standard one does), for int64 a, b with b - a <= 100000 and an identifier i other than forloop: for a <= b the source {% for i in (a..b) %}{{ i }}{% endfor %}, a and b in decimal, makes run return exactly the decimal numerals of a, a+1, ..., b concatenated (for_range_numerals_source; the arguments are parsed by the scanner and grammar model, parse_rangeArgs); for any a, b, with reversed and int64 literal offset:/limit: arguments (each optional), the numerals of selectItems reversed off lim [a..b] (for_range_mods_source, parse_rangeArgs_mods; for_range_source for any argument text that parses so); a loop variable named forloop is shadowed by the forloop record (for_var_named_forloop). Tie: the `loops` stream '
               '(exhaustive offset/limit/reversed/cols/break grid plus random nestings) answers every case by the model and the '
               'real engine, and the real output is compared byte for byte with an independent reference loop '
               '(harness/ref_prog.go).'),
     "design_ref": 'DESIGN.md 6 C11',
-    "note": NOTE + (""),
+    "note": NOTE + ("A range loop is modelled for b - a <= 100000 only: beyond that loopItems answers `unmodelled` (a boundary of the model, not of the code; the loops stream generates no such range), so the bound applies to every theorem whose hypotheses mention the items of a range value, not only to the source-level ones. The denotation theorems are stated for a loop with at most one else clause (the compiler accepts more, the model treats that case separately), after the collection and the modifiers have evaluated, on a writer that does not fail; iterate_break / iterate_next are stated for `for`, a break or continue inside tablerow is covered by loop_denotation / tablerow_denotation. The source-level theorems are about one shape, {% for i in (a..b) mods %}{{ i }}{% endfor %} with int64 literals, a clean item list (Clean, DESIGN 7.1) and a loop variable other than forloop (needed: for_var_named_forloop). select_spec and tablerow_before/after restate the definitions of the model in readable form; that the model describes tags/iteration_tags.go is what the loops stream checks."),
     "technique": ('Lean 4 proof (list lemmas for selection; induction over the iteration of the render model; loop = left fold) + model/implementation '
               'correspondence + independent reference oracle'),
 }
